@@ -94,6 +94,13 @@ SubMatches(ev) ==
           /\ Range(term(t).children) = ChildrenOf(par, t)                \* inverse relation
           /\ Range(term(t).allp) = Anc(par, t)                           \* closure inside the sub-ontology
           /\ LoggedStructOk(term(t))
+  \* growth beyond the listed properties: WHICH records a sub-ontology keeps.  The crate keeps a record iff it is
+  \* directly annotated to a retained term that has no modifier root among its (source) ancestors; modifier roots
+  \* exist only when the source was built with the documented defaults (children of HP:1 other than HP:118).
+  /\ (Focus = "EXTRA") =>
+       LET mods   == IF ev.defaults THEN children[1] \ {118} ELSE {}
+           phenoT == {t \in T : allp[t] \cap mods = {}}
+       IN \A k \in Kinds : {r.id : r \in Range(recsOf(k))} = {x \in DOMAIN rec[k] : rec[k][x].hpos \cap phenoT # {}}
   /\ (Focus = "C03") => p.ic_bad = <<>>
   /\ (Focus = "C02") =>
        /\ \A k \in Kinds : \A r \in Range(recsOf(k)) :
